@@ -202,13 +202,13 @@ pub open spec fn init_queue<T>(p: Seq<T>, acc: spec_fn(T) -> bool) -> Seq<QE<T>>
     p.map(|i: int, e: T| QE { e: e, flag: acc(e), requeued: false })
 }
 
-pub open spec fn sorted_by<T, K>(p: Seq<T>, key: spec_fn(T) -> K) -> bool {
+pub open spec fn sorted_by<T, K: core::cmp::Ord>(p: Seq<T>, key: spec_fn(T) -> K) -> bool {
     forall|i: int, j: int| 0 <= i < j < p.len() ==> ord_le(key(#[trigger] p[i]), key(#[trigger] p[j]))
 }
 
 /// C08 as a predicate: `(evict, move_back)` is the Second Chance plan for the collection `s` with
 /// capacity `cap`.
-pub open spec fn plan_is_second_chance<T, K>(
+pub open spec fn plan_is_second_chance<T, K: core::cmp::Ord>(
     s: Seq<T>,
     cap: nat,
     key: spec_fn(T) -> K,
@@ -231,7 +231,7 @@ pub open spec fn plan_is_second_chance<T, K>(
 }
 
 /// Consequences of `plan_is_second_chance` that the statement of C08 spells out.
-pub proof fn lemma_plan_facts<T, K>(
+pub proof fn lemma_plan_facts<T, K: core::cmp::Ord>(
     s: Seq<T>,
     cap: nat,
     key: spec_fn(T) -> K,
